@@ -147,6 +147,24 @@ def reshape_namespaces(model):
     return model
 
 
+def mixed_spelling_model(rng: random.Random, pads: int) -> M.Model:
+    """One document in which a namespace is opened twice, once as `My.Project` and once as `My`
+    holding `Project`, with a further namespace inside it in both blocks, a type nested in an
+    interface, a name reused in another scope - and `pads` other namespaces in between."""
+    def block(tag):
+        return [M.Namespace(['Detail'], [M.Extern([f'x{tag}'], 'int'), M.Enum([f'E{tag}'], ['A', 'B']),
+                                         M.Interface([f'I{tag}'], [M.Enum(['Kind'], ['K1'])])]),
+                M.Extern([f'y{tag}'], 'long'), M.SubInt([f'S{tag}'], 0, 3)]
+    between = [M.Namespace([f'QZPad{k}'], [M.Extern(['x1' if k % 2 else f'p{k}'], 'int')] if k % 3 else [])
+               for k in range(pads)]
+    first = M.Namespace(['My', 'Project'], block(1))
+    second = M.Namespace(['My'], [M.Namespace(['Project'], block(2))])
+    if rng.random() < 0.5:
+        first, second = M.Namespace(['My'], [M.Namespace(['Project'], block(1))]), \
+            M.Namespace(['My', 'Project'], block(2))
+    return M.Model([M.Import('other.dzn'), first] + between + [second, M.Enum(['E1'], ['Z'])])
+
+
 def build_case(seed: int, stream: int) -> dict:
     rng = random.Random(f'{PROP}:{seed}:{stream}')
     n_docs = rng.randint(2, 4)
@@ -164,6 +182,10 @@ def build_case(seed: int, stream: int) -> dict:
         first_model = first_model or gen.model
         docs.append(M.to_json(gen.model, decorate=rng.random() < 0.3, rng=rng))
         expects.append(M.expectations(gen.model))
+    if stream % 6 == 2:
+        # both spellings of one namespace inside one document, few or many namespaces between
+        mixed = mixed_spelling_model(rng, [6, 140, 300][(stream // 6) % 3])
+        docs[0], expects[0] = M.to_json(mixed), M.expectations(mixed)
     twin = None
     if stream % 7 == 5:
         # the same declarations under the same names, the namespaces written differently:
@@ -200,6 +222,9 @@ def build_case(seed: int, stream: int) -> dict:
         ops += [['load', slot, 0], ['process', slot], ['load', slot, empty], ['process', slot],
                 ['new', slot, 1, 'bytes'], ['process', slot], ['load', slot, empty],
                 ['process', slot]]
+    if stream % 6 == 2:
+        ops += [['new', 0, 0, 'str'], ['process', 0], ['process', 0], ['process', 0],
+                ['load', 0, 1], ['process', 0], ['load', 0, 0], ['process', 0], ['process', 0]]
     if stream % 6 == 4:
         # and for certain: the deep documents parsed again and again by one instance, and the
         # shallower one after the deeper one
